@@ -67,6 +67,7 @@ W long w_pool_history(ul nops, const ul* ops, const ul* slot, ul* obytes, ul* oc
 
 // matrix / layout lifetimes: 0: A := 2x2 CSR with 3 entries   1: B := CSR(A.layout())   2: move-construct a layout object from A's layout and drop both
 // 3: B.clone(A, mode)   4: B.clear()   5: C := move(A)   6: A.clone(C, mode)   7: keep a moved layout alive while its source matrix is destroyed first
+// 8: move-assign B's layout onto an object holding A's layout
 W long w_matrix_history(ul nops, const ul* ops, const ul* m, ul* obytes_end)
 {
   {
@@ -90,6 +91,7 @@ W long w_matrix_history(ul nops, const ul* ops, const ul* m, ul* obytes_end)
       case 5: Cc = std::move(A); vc_ = va_; va_ = false; break;
       case 6: if(vc_) { A.clone(Cc, CloneMode(m[k] % 4)); va_ = true; } break;
       case 7: if(va_) { auto lay = A.layout(); keep.push_back(std::move(lay)); } break;
+      case 8: if(va_ && vb_) { auto la = A.layout(); auto lb = B.layout(); la = std::move(lb); } break;   // move-assign onto a layout that already holds arrays
       default: break;
       }
     }
